@@ -1657,3 +1657,44 @@ def bit_source(run, R="TAB-fmt"):
                   "%s reads the assembled bits through read_bit/len/get_blocks or its audited wrapper target" % name,
                   "%s obtains its data through %s: every sibling formatter reads single bits with read_bit (zero past the end), so the padding of the last granule and the bit order are not what was audited" % (name, sorted(set(bad))))
     run.floor(R, "formatters with a bit source", n, 15)
+
+
+def tab_cli_escapes_gated(run, R="TAB-cli"):
+    """`--color=off` means no escape sequence at all: a text that contains the escape character reaches the output only through
+    `StringStyler::add_style`, the one function that asks `use_colors` first.  Every use of such a constant (or literal) anywhere in
+    the crate is an argument of add_style"""
+    import json
+    prog = run.prog
+    esc = set()
+    for c in prog.fns.values():
+        if c.kind not in ("Const", "Static", "AssocConst"):
+            continue
+        txt = json.dumps(c.raw.get("blocks"))
+        if "\\u001b" in txt or "\\u{1b}" in txt or "\x1b" in txt:
+            esc.add(c.id)
+    gate = [f for f in prog.real_fns() if f.id.endswith("StringStyler::add_style")]
+    gated = False
+    for f in gate:
+        for b in sorted(f.reachable()):
+            tt = f.blocks[b]["term"]
+            if tt["k"] == "switch" and op_local(tt["discr"]) is not None:
+                o = f.origin_op(tt["discr"])
+                if o and o[0] == "place" and o[2] and isinstance(o[2][-1], dict) and o[2][-1].get("name") == "use_colors":
+                    gated = True
+    n, bad = 0, []
+    for f in prog.real_fns():
+        for bi, si, st in f.stmts():
+            if st["k"] != "assign":
+                continue
+            txt = json.dumps(st["rv"])
+            hit = [e for e in esc if ('"%s"' % e) in txt] or (["literal"] if ("\\u001b" in txt or "\x1b" in txt) else [])
+            if not hit:
+                continue
+            n += 1
+            dl = st["place"]["l"]
+            users = [t for b2, t in f.calls() if any(value_depends_on(f, a, dl) for a in t["args"])]
+            if not users or not all((t.get("resolved") or t.get("callee") or "").endswith("StringStyler::add_style") for t in users):
+                bad.append("%s in %s" % (hit[0].rsplit("::", 1)[-1], f.id.rsplit("::", 1)[-1]))
+    run.check(bool(esc) and gated and n >= 5 and not bad, R, R + "|color|escapes-gated", gate[0].loc() if gate else "-",
+              "every escape sequence reaches the output through add_style, which asks use_colors (%d use(s) of %d constant(s))" % (n, len(esc)),
+              "an escape sequence is written without asking `use_colors` (%s): `--color=off` still produces ANSI escapes in the diagnostics" % (", ".join(bad) or "gate not found: add_style no longer tests use_colors"))
